@@ -227,6 +227,9 @@ def main(argv=None):
         else:
             print(f"NOTE: known finding no longer reproduces: {f['what']}")
     # ---- evidence ------------------------------------------------------------------------------
+    known_ids = {r["id"] for r in failed if any(f.get("obligation") and re.search(f["obligation"], r["id"]) for f in known)}
+    results = [r for r in results if r["id"] not in known_ids]  # carved-out obligations are reported separately, never counted
+    failed = [r for r in failed if r["id"] not in known_ids]
     n_obl = len(results)
     samples = []
     for r in results[:3] + failed[:3]:
@@ -247,6 +250,7 @@ def main(argv=None):
             solver_time_s=round(sum(r.get("time_s", 0) for r in results), 3),
             failed=[r["id"] for r in failed], undecided=[r["id"] for r in undec] + [f"{k}: {u}" for k, us in fn_undec.items() for u in us],
             bounded=bounded_reports, not_decided=prop.get("not_decided", []),
+            known_findings=[dict(obligation=i, what=next(f["what"] for f in known if f.get("obligation") and re.search(f["obligation"], i))) for i in sorted(known_ids)],
             samples=samples or [dict(note="no obligations")],
             explanation=prop.get("explanation", ""),
             evaluations=max(1, n_obl), distinct_nontrivial=max(2, len({r["id"] for r in results if r.get("backend") != "simplify"})),
